@@ -1,4 +1,161 @@
+/-
+  C08 — transformation constructors realise their Euclidean / projective definition.
+  The constructor models (Geo.Transform) are compared with the implementation on every run; here: the models
+  meet the definitions.  Trigonometric values enter as numbers c, s with c² + s² = 1.
+-/
 import Geo.Transform
+import Geo.Proofs.Lemmas
+import Mathlib.Tactic.FieldSimp
+import Mathlib.LinearAlgebra.Matrix.NonsingularInverse
+import Mathlib.Analysis.SpecialFunctions.Trigonometric.Basic
 namespace Geo
-theorem C08_placeholder : (1 : Nat) = 1 := rfl
+
+section
+variable {K : Type} [Field K]
+
+/-- entry (i,j) of a model matrix -/
+abbrev ent (m : Mat K) (i j : Nat) : K := m.get i j
+
+/-! ## translation, scaling -/
+
+theorem T08_translation_2d (a b x y w : K) :
+    (translationM [a, b]).mulVec [x, y, w] = [x + a * w, y + b * w, w] := by
+  simp [translationM, affineTransform, Mat.mulVec, Mat.ofFn, Mat.get, Mat.identity, sumRange, List.range_succ]
+    <;> (try constructor) <;> (try constructor) <;> (try constructor) <;> (try ring)
+
+/-- `translation(v)` maps `(p, 1)` to `(p + v, 1)` and fixes every point at infinity `(d, 0)` -/
+theorem T08_translation_3d (a b c x y z w : K) :
+    (translationM [a, b, c]).mulVec [x, y, z, w] = [x + a * w, y + b * w, z + c * w, w] := by
+  simp [translationM, affineTransform, Mat.mulVec, Mat.ofFn, Mat.get, Mat.identity, sumRange, List.range_succ]
+    <;> (try constructor) <;> (try constructor) <;> (try constructor) <;> (try ring)
+
+theorem T08_scaling_3d (a b c x y z w : K) :
+    (scalingM [a, b, c]).mulVec [x, y, z, w] = [a * x, b * y, c * z, w] := by
+  simp [scalingM, affineTransform, Mat.mulVec, Mat.ofFn, Mat.get, sumRange, List.range_succ]
+
+theorem T08_scaling_2d (a b x y w : K) :
+    (scalingM [a, b]).mulVec [x, y, w] = [a * x, b * y, w] := by
+  simp [scalingM, affineTransform, Mat.mulVec, Mat.ofFn, Mat.get, sumRange, List.range_succ]
+
+/-! ## rotation in the plane -/
+
+/-- `rotation(a)` maps `(x, y, 1)` to `(c x − s y, s x + c y, 1)`: counter-clockwise by the angle with
+    `cos = c`, `sin = s`; in particular `(1,0) ↦ (c,s)` -/
+theorem T08_rot2_action (c s x y w : K) :
+    (rotation2M c s).mulVec [x, y, w] = [c * x - s * y, s * x + c * y, w] := by
+  simp [rotation2M, affineTransform, Mat.mulVec, Mat.ofFn, Mat.get, sumRange, List.range_succ]
+    <;> (try constructor) <;> (try constructor) <;> (try constructor) <;> (try ring)
+
+/-- composition adds the angles (addition theorems of cos / sin) -/
+theorem T08_rot2_compose (c1 s1 c2 s2 : K) :
+    Mat.mul (rotation2M c1 s1) (rotation2M c2 s2) = rotation2M (c1 * c2 - s1 * s2) (s1 * c2 + c1 * s2) := by
+  simp [rotation2M, affineTransform, Mat.mul, Mat.ofFn, Mat.get, sumRange, List.range_succ]
+    <;> (try constructor) <;> (try constructor) <;> (try constructor) <;> (try ring)
+
+end
+
+/-- over ℝ: `rotation(a) * rotation(b) = rotation(a + b)` -/
+theorem T08_rot2_additive (a b : ℝ) :
+    Mat.mul (rotation2M (Real.cos a) (Real.sin a)) (rotation2M (Real.cos b) (Real.sin b))
+      = rotation2M (Real.cos (a + b)) (Real.sin (a + b)) := by
+  rw [T08_rot2_compose, Real.cos_add, Real.sin_add]
+
+section
+variable {K : Type} [Field K]
+
+/-! ## rotation about an axis (the code's Rodrigues expression with `u^{jk} = ε^{ijk} a_i`) -/
+
+/-- linear part of `rotation(angle, axis)` -/
+def rot3 (c s : K) (a : Nat → K) (j k : Nat) : K := (rotation3M c s [a 0, a 1, a 2]).get j k
+
+theorem rot3_entries (c s : K) (a : Nat → K) :
+    rot3 c s a 0 0 = c + (1 - c) * (a 0 * a 0) ∧ rot3 c s a 0 1 = s * a 2 + (1 - c) * (a 0 * a 1) ∧
+    rot3 c s a 0 2 = -(s * a 1) + (1 - c) * (a 0 * a 2) ∧ rot3 c s a 1 0 = -(s * a 2) + (1 - c) * (a 1 * a 0) ∧
+    rot3 c s a 1 1 = c + (1 - c) * (a 1 * a 1) ∧ rot3 c s a 1 2 = s * a 0 + (1 - c) * (a 1 * a 2) ∧
+    rot3 c s a 2 0 = s * a 1 + (1 - c) * (a 2 * a 0) ∧ rot3 c s a 2 1 = -(s * a 0) + (1 - c) * (a 2 * a 1) ∧
+    rot3 c s a 2 2 = c + (1 - c) * (a 2 * a 2) := by
+  simp [rot3, rotation3M, affineTransform, Mat.ofFn, Mat.get, sumRange, List.range_succ, epsEntry, isPermOfRange,
+    pairProd, sgnInt]
+
+/-- orthogonal: `RᵀR = 1`, given `c² + s² = 1` and a unit axis -/
+theorem T08_rot3_orthogonal (c s : K) (a : Nat → K) (h1 : c ^ 2 + s ^ 2 = 1) (h2 : a 0 ^ 2 + a 1 ^ 2 + a 2 ^ 2 = 1) :
+    ∀ i j, i < 3 → j < 3 → (sumRange 3 fun k => rot3 c s a k i * rot3 c s a k j) = if i = j then 1 else 0 := by
+  obtain ⟨e00, e01, e02, e10, e11, e12, e20, e21, e22⟩ := rot3_entries c s a
+  intro i j hi hj
+  interval_cases i <;> interval_cases j <;> simp [sumRange, e00, e01, e02, e10, e11, e12, e20, e21, e22]
+  · linear_combination (a 0^4 + a 0^2*a 1^2 + a 0^2*a 2^2 - 2*a 0^2 + 1) * h1 + (-2*a 0^2*c - a 0^2*s^2 + 2*a 0^2 + s^2) * h2
+  · linear_combination (a 0*a 1*(a 0^2 + a 1^2 + a 2^2 - 2)) * h1 + (-a 0*a 1*(2*c + s^2 - 2)) * h2
+  · linear_combination (a 0*a 2*(a 0^2 + a 1^2 + a 2^2 - 2)) * h1 + (-a 0*a 2*(2*c + s^2 - 2)) * h2
+  · linear_combination (a 0*a 1*(a 0^2 + a 1^2 + a 2^2 - 2)) * h1 + (-a 0*a 1*(2*c + s^2 - 2)) * h2
+  · linear_combination (a 0^2*a 1^2 + a 1^4 + a 1^2*a 2^2 - 2*a 1^2 + 1) * h1 + (-2*a 1^2*c - a 1^2*s^2 + 2*a 1^2 + s^2) * h2
+  · linear_combination (a 1*a 2*(a 0^2 + a 1^2 + a 2^2 - 2)) * h1 + (-a 1*a 2*(2*c + s^2 - 2)) * h2
+  · linear_combination (a 0*a 2*(a 0^2 + a 1^2 + a 2^2 - 2)) * h1 + (-a 0*a 2*(2*c + s^2 - 2)) * h2
+  · linear_combination (a 1*a 2*(a 0^2 + a 1^2 + a 2^2 - 2)) * h1 + (-a 1*a 2*(2*c + s^2 - 2)) * h2
+  · linear_combination (a 0^2*a 2^2 + a 1^2*a 2^2 + a 2^4 - 2*a 2^2 + 1) * h1 + (-2*a 2^2*c - a 2^2*s^2 + 2*a 2^2 + s^2) * h2
+
+/-- determinant 1 -/
+theorem T08_rot3_det (c s : K) (a : Nat → K) (h1 : c ^ 2 + s ^ 2 = 1) (h2 : a 0 ^ 2 + a 1 ^ 2 + a 2 ^ 2 = 1) :
+    Spec.det3 (rot3 c s a 0) (rot3 c s a 1) (rot3 c s a 2) = 1 := by
+  obtain ⟨e00, e01, e02, e10, e11, e12, e20, e21, e22⟩ := rot3_entries c s a
+  simp only [Spec.det3, e00, e01, e02, e10, e11, e12, e20, e21, e22]
+  linear_combination (-a 0^2*c + a 0^2 - a 1^2*c + a 1^2 - a 2^2*c + a 2^2 + c) * h1 +
+    (-a 0^2*c*s^2 + a 0^2*s^2 - a 1^2*c*s^2 + a 1^2*s^2 - a 2^2*c*s^2 + a 2^2*s^2 + c*s^2 - c + 1) * h2
+
+/-- the axis is fixed and the trace is `1 + 2c` (the turn is by the angle with cosine c) -/
+theorem T08_rot3_axis_trace (c s : K) (a : Nat → K) (h2 : a 0 ^ 2 + a 1 ^ 2 + a 2 ^ 2 = 1) :
+    (∀ i, i < 3 → (sumRange 3 fun k => rot3 c s a i k * a k) = a i) ∧
+    rot3 c s a 0 0 + rot3 c s a 1 1 + rot3 c s a 2 2 = 1 + 2 * c := by
+  obtain ⟨e00, e01, e02, e10, e11, e12, e20, e21, e22⟩ := rot3_entries c s a
+  refine ⟨?_, ?_⟩
+  · intro i hi
+    interval_cases i <;> simp [sumRange, e00, e01, e02, e10, e11, e12, e20, e21, e22]
+    · linear_combination (-a 0*(c - 1)) * h2
+    · linear_combination (-a 1*(c - 1)) * h2
+    · linear_combination (-a 2*(c - 1)) * h2
+  · rw [e00, e11, e22]
+    linear_combination (1 - c) * h2
+
+/-! ## reflection -/
+
+/-- `reflection(h)` for the mirror `{p : v·(p − x) = 0}` is the classical mirror image
+    `p ↦ p − 2 (v·(p−x))/|v|² · v` (2-D); hence an involution that fixes the mirror pointwise -/
+theorem T08_reflection_2d (v0 v1 x0 x1 p0 p1 : K) (hv : v0 * v0 + v1 * v1 ≠ 0) :
+    (reflectionM [v0, v1] [x0, x1]).mulVec [p0, p1, 1]
+      = [p0 - 2 * (v0 * (p0 - x0) + v1 * (p1 - x1)) / (v0 * v0 + v1 * v1) * v0,
+         p1 - 2 * (v0 * (p0 - x0) + v1 * (p1 - x1)) / (v0 * v0 + v1 * v1) * v1, 1] := by
+  simp [reflectionM, translationM, householderM, affineTransform, Mat.mul, Mat.mulVec, Mat.ofFn, Mat.get,
+    Mat.identity, sumRange, List.range_succ]
+  refine ⟨?_, ?_⟩ <;> field_simp <;> ring
+
+theorem T08_reflection_3d (v0 v1 v2 x0 x1 x2 p0 p1 p2 : K) (hv : v0 * v0 + v1 * v1 + v2 * v2 ≠ 0) :
+    (reflectionM [v0, v1, v2] [x0, x1, x2]).mulVec [p0, p1, p2, 1]
+      = [p0 - 2 * (v0 * (p0 - x0) + v1 * (p1 - x1) + v2 * (p2 - x2)) / (v0 * v0 + v1 * v1 + v2 * v2) * v0,
+         p1 - 2 * (v0 * (p0 - x0) + v1 * (p1 - x1) + v2 * (p2 - x2)) / (v0 * v0 + v1 * v1 + v2 * v2) * v1,
+         p2 - 2 * (v0 * (p0 - x0) + v1 * (p1 - x1) + v2 * (p2 - x2)) / (v0 * v0 + v1 * v1 + v2 * v2) * v2, 1] := by
+  simp [reflectionM, translationM, householderM, affineTransform, Mat.mul, Mat.mulVec, Mat.ofFn, Mat.get,
+    Mat.identity, sumRange, List.range_succ]
+  refine ⟨?_, ?_, ?_⟩ <;> field_simp <;> ring
+
+end
+
+/-! ## from_points (every dimension) -/
+section
+open Matrix
+variable {n : Type} [Fintype n] [DecidableEq n] {F : Type} [Field F]
+
+/-- `t = M₂D₂(M₁D₁)⁻¹` satisfies `t·(M₁D₁) = M₂D₂`: the k-th source point `M₁e_k` goes to `(d₂ₖ/d₁ₖ)·M₂e_k`, a non-zero
+    multiple of the k-th target point, and the last source point `M₁d₁` goes to the last target point `M₂d₂` -/
+theorem T08_from_points (M1 M2 : Matrix n n F) (d1 d2 : n → F) (h : IsUnit (M1 * diagonal d1).det) :
+    (M2 * diagonal d2 * (M1 * diagonal d1)⁻¹) * (M1 * diagonal d1) = M2 * diagonal d2 ∧
+    (M2 * diagonal d2 * (M1 * diagonal d1)⁻¹).mulVec (M1.mulVec d1) = M2.mulVec d2 := by
+  have key : (M2 * diagonal d2 * (M1 * diagonal d1)⁻¹) * (M1 * diagonal d1) = M2 * diagonal d2 := by
+    rw [Matrix.mul_assoc, Matrix.nonsing_inv_mul _ h, Matrix.mul_one]
+  refine ⟨key, ?_⟩
+  have e1 : M1.mulVec d1 = (M1 * diagonal d1).mulVec (fun _ => 1) := by
+    rw [← Matrix.mulVec_mulVec]; congr 1; ext i; simp [Matrix.mulVec_diagonal]
+  have e2 : M2.mulVec d2 = (M2 * diagonal d2).mulVec (fun _ => 1) := by
+    rw [← Matrix.mulVec_mulVec]; congr 1; ext i; simp [Matrix.mulVec_diagonal]
+  rw [e1, Matrix.mulVec_mulVec, key, e2]
+
+end
 end Geo
